@@ -169,6 +169,9 @@ def system_cases(draw):
     flows = []
     for i in range(draw(st.integers(0, 5))):
         name = draw(st.sampled_from(NAME_PARTS)) + draw(st.sampled_from(["", " 2", " => sysenv", "_b"]))
+        if draw(st.integers(0, 4)) == 0:
+            # verbose names: longer than 100 / 128 characters, differing only near the end
+            name = "production of semi finished goods in the region of interest including all downstream users " * draw(st.sampled_from([1, 2])) + "=> " + name + f" ({i})"
         if conservative_key(name) in used or not conservative_key(name):
             name = f"{name} #{i}x{i}"
         if conservative_key(name) in used:
@@ -185,6 +188,8 @@ def system_cases(draw):
     stocks = []
     for i in range(draw(st.integers(0, 3))):
         name = draw(st.sampled_from(["in use", "Landfill (old)", "stock", "S-1"])) + f" {i}"
+        if draw(st.integers(0, 4)) == 0:
+            name = "in use stock of all products that were put on the market in the region during the whole modelling period " + name
         if conservative_key(name) in used:
             continue
         used.add(conservative_key(name))
